@@ -194,6 +194,7 @@ fn leg_streams(cfg: &Cfg) -> Local {
             if rng.chance(9, 10) {
                 opts.big = false;
             }
+            opts.nested_pixel = idx % 2 == 1;
             let ds = gen_dataset(rng, &opts);
             let obj = to_object(&ds);
             let mut unp = Map::new();
